@@ -54,6 +54,20 @@ func genConfig(t *rapid.T, o genOpts) Config {
 	cfg.Compressions = append([]string{}, rapid.SampledFrom(compressionLists).Draw(t, "cfg_compressions")...)
 	cfg.ViaDefaults = rapid.IntRange(0, 4).Draw(t, "cfg_via_defaults") == 0
 	cfg.GlobalTypes = rapid.IntRange(0, 3).Draw(t, "cfg_global_types") == 0
+	if rapid.IntRange(0, 3).Draw(t, "cfg_other_service") == 0 {
+		// a second service with options of its own, registered before or after: nothing of it may
+		// show in how the Bench service is served
+		oo := &OtherOptions{}
+		oo.Protocols = append([]string(nil), rapid.SampledFrom(protocolSubsets[:14]).Draw(t, "other_protocols")...)
+		if len(oo.Protocols) == 1 && oo.Protocols[0] == ProtoREST {
+			oo.Protocols = []string{ProtoGRPC} // (REST-only needs bindings on every Route method)
+		}
+		oo.Codecs = append([]string(nil), rapid.SampledFrom(codecLists[:4]).Draw(t, "other_codecs")...)
+		oo.Compressions = append([]string{}, rapid.SampledFrom(compressionLists).Draw(t, "other_compressions")...)
+		oo.NoCompress = rapid.IntRange(0, 3).Draw(t, "other_no_compress") == 0
+		oo.MaxMsg = uint32(rapid.SampledFrom([]int{0, 0, 64, 4096}).Draw(t, "other_max_msg"))
+		cfg.OtherOpts, cfg.OtherFirst = oo, rapid.Bool().Draw(t, "other_first")
+	}
 	return cfg
 }
 
